@@ -328,4 +328,102 @@ inductive Reachable (P : Params) : Coder → Prop where
   | step {c : Coder} (op : Op) : Reachable P c → Reachable P (step P c op).1
   | reset {c : Coder} (f : Flags) : Reachable P c → Reachable P (reset c f)
 
+/-! ### Pool discipline
+
+`sync.Pool` users in the library (`getStrings/putStrings` arshal.go:554-568,
+`getObjectMembers/putObjectMembers` value.go:290-300, the five coder pools of pools.go) follow one
+pattern: take an object, overwrite it, use it, put it back.  `Pool.prun` is what the code does with
+ANY pool contents; `Pool.rrun` is the discipline (every get'd object is put at most once, never
+used after its put, read only after it was written). -/
+namespace Pool
+
+/-- Contents of a scratch object (a `stringSlice`, a `[]objectMember`, an encoder buffer …). -/
+abbrev Val := Nat
+
+/-- A client program over pooled scratch objects.  Handles are numbered by `get` order. -/
+inductive Cmd where
+  | get                       -- getStrings / getObjectMembers / getBufferedEncoder …
+  | write (h : Nat) (v : Val) -- fill the object
+  | read (h : Nat)            -- use what is in it (observable)
+  | put (h : Nat)             -- putStrings / …
+deriving Repr, DecidableEq
+
+/-- Pooled semantics: what the Go code does, discipline or not. -/
+structure PSt where
+  nh : Nat := 0               -- handles handed out so far
+  id : Nat → Nat := fun _ => 0  -- handle ↦ object
+  heap : Nat → Val            -- object ↦ contents (stale contents included)
+  pool : List Nat             -- objects in the sync.Pool (a multiset: an object put twice is in it twice)
+  next : Nat                  -- next never-used object (`New`)
+
+def pstep (s : PSt) : Cmd → PSt × Option Val
+  | .get =>
+    match s.pool with
+    | o :: rest => ({ s with nh := s.nh + 1, id := fun h => if h = s.nh then o else s.id h, pool := rest }, none)
+    | [] => ({ s with nh := s.nh + 1, id := fun h => if h = s.nh then s.next else s.id h, next := s.next + 1 }, none)
+  | .write h v => ({ s with heap := fun o => if o = s.id h then v else s.heap o }, none)
+  | .read h => (s, some (s.heap (s.id h)))
+  | .put h => ({ s with pool := s.id h :: s.pool }, none)
+
+def addOut (o : Option Val) (vs : List Val) : List Val :=
+  match o with
+  | some v => v :: vs
+  | none => vs
+
+/-- Run a program: the final pool state and everything it observed. -/
+def prun (s : PSt) : List Cmd → PSt × List Val
+  | [] => (s, [])
+  | c :: cs =>
+    let r := pstep s c
+    let t := prun r.1 cs
+    (t.1, addOut r.2 t.2)
+
+/-- Reference semantics = the discipline: every `get` yields a private new object; a handle may be
+written, read and put only while held, read only after it was written since the `get`, and
+put at most once.  `none`: the program breaks the discipline. -/
+structure RSt where
+  nh : Nat := 0
+  live : Nat → Bool := fun _ => false
+  val : Nat → Option Val := fun _ => none
+
+def rstep (s : RSt) : Cmd → Option (RSt × Option Val)
+  | .get => some ({ nh := s.nh + 1, live := fun h => if h = s.nh then true else s.live h,
+                     val := fun h => if h = s.nh then none else s.val h }, none)
+  | .write h v => if s.live h then some ({ s with val := fun k => if k = h then some v else s.val k }, none) else none
+  | .read h => if s.live h then (match s.val h with | some v => some (s, some v) | none => none) else none
+  | .put h => if s.live h then some ({ s with live := fun k => if k = h then false else s.live k }, none) else none
+
+def rrun (s : RSt) : List Cmd → Option (RSt × List Val)
+  | [] => some (s, [])
+  | c :: cs =>
+    match rstep s c with
+    | none => none
+    | some (s', o) =>
+      match rrun s' cs with
+      | none => none
+      | some (s'', vs) => some (s'', addOut o vs)
+
+/-- A program obeys the pool discipline iff the reference semantics accepts it. -/
+def Disciplined (cs : List Cmd) : Prop := ∃ r vs, rrun {} cs = some (r, vs)
+
+/-- What the pool must satisfy when a call starts (no object is held): no object in it twice,
+and `New` really makes new objects.  Its CONTENTS — which objects, in which order, holding what
+stale data — are unconstrained. -/
+structure GoodPool (p : PSt) : Prop where
+  nodup : p.pool.Nodup
+  old : ∀ o ∈ p.pool, o < p.next
+
+/-- The pool invariant between calls and during a disciplined program. -/
+structure Inv (p : PSt) (r : RSt) : Prop where
+  nh : p.nh = r.nh
+  bound : ∀ h, r.live h = true → h < r.nh
+  inj : ∀ h h', r.live h = true → r.live h' = true → p.id h = p.id h' → h = h'
+  nodup : p.pool.Nodup
+  notPooled : ∀ h, r.live h = true → p.id h ∉ p.pool
+  poolOld : ∀ o ∈ p.pool, o < p.next
+  liveOld : ∀ h, r.live h = true → p.id h < p.next
+  agree : ∀ h v, r.live h = true → r.val h = some v → p.heap (p.id h) = v
+
+end Pool
+
 end JsonV.Model.Reset
